@@ -45,6 +45,9 @@ CHECKS = {
  "C13": ("fault_enumeration", "crash-point enumeration (file set after every storage operation, restart on a copy) over id ranges + delay-bounded exhaustive schedule exploration of overlapping publication goroutines of the real Store",
          "2-4 consecutive checkpoints from 95 start ids (0..70, around 2^6, 2^12, 2^16, 2^32), in memory and on the real LocalDirectory: after every storage operation a new Store loads the highest completely written checkpoint; three checkpoints created back to back with their publication goroutines interleaved in every way within 4-5 delays: Remove never targets the newest published checkpoint, retained notifications and CurrentCheckpoint never go back",
          "storage operations are atomic; scheduling points at synchronisation operations", "DESIGN.md §5 C13"),
+ "C15": ("model_checking", "explicit-state search (choice-sequence DFS with canonical state-key pruning) over the real jobs.Job with scripted nodes under the cooperative scheduler (run to quiescence after every event), invariants on every call the job makes, bounded-liveness suffix from every state",
+         "all job states reachable within 5-7 events over register / deregister / heartbeat / clock jump / checkpoint tick / acknowledgement / failing Deploy, WorkerCount 1 and 2 with one standby node of each kind: calls only reach registered live nodes, deploys name exactly WorkerCount nodes, no call reaches an assembly after the job noticed a lost member, redeploys carry the latest completed checkpoint; from every state 'register all, tick, acknowledge' completes a checkpoint with a larger id",
+         "scripted nodes (real workers: cluster parts, being added); a node counts as lost once it deregistered or its heartbeat had expired when the job evaluated its registry", "DESIGN.md §5 C15"),
  "C16": ("exploration", "delay-bounded exhaustive schedule exploration of a real SourceRunner (reported split positions vs the barrier cut) + exhaustive enumeration of splitter configurations and kinesis shard histories against the real splitters",
          "source runner: as C04 with a barrier racing the reads: reported positions put every record emitted before the barrier below and every later record at or above them; embedded/httpapi splitters for every split count <=5 x runner count <=4; real kinesis SourceSplitter against the repository's kinesis fake (in-process transport, discovery ticker on virtual time): every history up to depth 6-7 over split / merge / discovery tick / reader finishes shard / checkpoint+restore: a shard handed out once per incarnation, never before its parents finished, with its checkpointed cursor, restore neither panics nor forgets",
          "records without keyed events are invisible to the cut oracle; kinesis shard expiry not modelled", "DESIGN.md §5 C16"),
